@@ -1074,7 +1074,7 @@ func Run(c *vh.Ctx) {
 		}
 	}()
 	if len(c.ReplayRaw) > 0 {
-		if r.replayChain(c.ReplayRaw) {
+		if r.replayChain(c.ReplayRaw) || r.replayProp(c.ReplayRaw) {
 			return
 		}
 		var cs Case
@@ -1263,6 +1263,9 @@ func Run(c *vh.Ctx) {
 
 	// chained parent:: calls over linear chains of up to 5 classes (complete)
 	r.runChains()
+
+	// inherited property defaults over linear chains of up to 5 classes (complete)
+	r.runProps()
 
 	// 3. known stream: the recorded deviations must still be the recorded ones
 	knownCases := []Hier{
